@@ -109,6 +109,13 @@ class AST:
             if inner:
                 for c in reversed(inner):
                     stack.append((c, n))
+        # functions by mangled name: only real instantiations / ordinary functions, never template patterns
+        self.by_mangled = {}
+        for nid, n in self.byid.items():
+            if n.get('kind') in FUNC_KINDS and 'mangledName' in n:
+                if any(c.get('kind') == 'CompoundStmt' for c in n.get('inner', [])) or n.get('explicitlyDefaulted'):
+                    if not self._dependent_ctx(n) and 'type-parameter' not in n.get('type', {}).get('qualType', ''):
+                        self.by_mangled.setdefault(n['mangledName'], n)
         # more type-string evidence: copy/move constructors, assignment operators, `this`
         for nid, n in list(self.byid.items()):
             k = n.get('kind')
@@ -271,7 +278,10 @@ class AST:
         """best available printed type of a `type` object."""
         if t is None:
             return None
-        return t.get('desugaredQualType') or t.get('qualType')
+        d = t.get('desugaredQualType')
+        if d and 'type-parameter-' in d:
+            d = None     # clang printed the sugar of a partial specialisation: resolve the written name in context instead
+        return d or t.get('qualType')
 
 
 def strip_cv(s):
